@@ -118,9 +118,11 @@ CLAIMED = {
         "exptime, byte length of the encoded data, cas, noreply marker, data block), key token <= 250 bytes without separators (C20's "
         "contract, re-proved in the same run), numeric tokens decimal; illegal keys and non-integer expire/flags raise before anything "
         "is written. delete/incr/decr/touch/flush_all: the command handed to the exchange function equals the documented format with "
-        "the noreply marker iff the call does not wait. All for bytes and str keys, any prefix, ascii and utf-8 encodings.",
+        "the noreply marker iff the call does not wait. cache_memlimit: one _fetch_cmd exchange whose only token is the decimal memlimit, "
+        "no prefix / exptime, non-integers rejected before any I/O, and _fetch_cmd run for that verb writes 'cache_memlimit <t>...' once. "
+        "All for bytes and str keys, any prefix, ascii and utf-8 encodings.",
    note="Known finding (not repaired: pinned test asserts it): the empty key is accepted; re-confirmed by witness replay each run. Not yet "
-        "mechanised: command text of stats/cache_memlimit; the strict-parse uniqueness lemma. get/gets/gat/gats and get_many/gets_many (any number of keys, one-shot iterators included; empty collections send nothing) are covered. Trusted: pyvc, "
+        "mechanised: command text of stats (caller tokens); the strict-parse uniqueness lemma. get/gets/gat/gats and get_many/gets_many (any number of keys, one-shot iterators included; empty collections send nothing) are covered. Trusted: pyvc, "
         "z3/cvc5 strings, A-int/A-enc axioms, serde returns bytes|str|int with 16-bit flags, integer arguments within protocol ranges.",
    technique="contract-based deductive verification: loop invariants + per-path string VCs over the real command builders (cvc5 + z3)",
    ref="5 C02"),
@@ -175,7 +177,7 @@ CLAIMED = {
    text="PooledClient read methods with ignore_exc: for any Exception-class failure of the inner call the method does not raise and "
         "returns exactly the miss value, which is computed by executing the real Client method on an empty fetch result; the slot is "
         "returned and the failed socket closed (C09).",
-   note="HashClient get/gat/gats/gets are covered the same way (failure, back-off and no-server all return the miss value; dep:C13 re-proves that nothing escapes); HashClient get_many/gets_many: only an input error can escape with ignore_exc, a failing or backed-off server contributes {} to the merge. Client._fetch_cmd's own ignore_exc path is proved (empty result, connection dropped, never raises once the exchange started) and get/gets/gat/gats turn it into the miss value; the multi-key reads are not yet mechanised (NOT_COVERED).",
+   note="HashClient get/gat/gats/gets are covered the same way (failure, back-off and no-server all return the miss value; dep:C13 re-proves that nothing escapes); HashClient get_many/gets_many: only an input error can escape with ignore_exc, a failing or backed-off server contributes {} to the merge. Client._fetch_cmd's own ignore_exc path is proved (empty result, connection dropped, never raises once the exchange started) and get/gets/gat/gats turn it into the miss value; the multi-key reads are not yet mechanised (NOT_COVERED). Bounded stand-in for undecided VCs: every read of four client stacks under 17 fault plans plus three error-reply plans per bytes literal harvested from the AST of pymemcache/client/base.py of the tree under check.",
    technique="contract-based deductive verification: exceptional postconditions over callee contracts (z3)",
    ref="5 C07"),
  "C12": dict(
@@ -189,7 +191,7 @@ CLAIMED = {
         "without repetition; the exchange loop makes at most one inner call per batch, on that batch's own server's client, with exactly "
         "that batch and the caller's arguments, and merges one answer per batch.",
    note="Quantified invariants give no counter-models: an undecided multi-key VC is decided by a bounded replay on the real HashClient "
-        "(1..5 servers incl. UNIX, prefixes, pooling, key sets 0..50 with pairs; per-server logs). delete_many: one single-key delete per key through the same route, with the caller's arguments. NOT COVERED: "
+        "(1..5 servers incl. UNIX, prefixes, pooling, key sets 0..50 with pairs; per-server logs). delete_many: one single-key delete per key through the same route, with the caller's arguments. _get_client: the one placement lookup is made AFTER dead servers were revived (ghost flag; a lookup on the pre-revival rotation routes the first key of a batch differently from the rest). NOT COVERED: "
         "set_many pairs sharing a stripped key; 'union of per-server answers = per-key gets' uses C11 as a lemma. Trusted: C11/C13 "
         "contracts, A-defaultdict, client table keyed by node name.",
    technique="contract-based deductive verification: routing VCs over callee contracts, group-by loop invariants over ghost arrays (z3/cvc5)",
